@@ -220,7 +220,7 @@ func propC09(a *Analysis, r *Registry) {
 				env := X.EnvFor(fn, "s")
 				fc := X.Under(fn, X.AssumeEq(env.MustParse("s.Sorted"), S.True()), X.AssumeEq(env.MustParse("s.Weights"), env.MustParse("nil")),
 					X.AssumeCond(env.MustParse("len(s.Xs)==0"), false))
-				b.Eq(rB, "stats.(Sample).Bounds/sorted-unweighted/"+itoa(i), b.pos(fn), fc.Sub(fc.RetVal(i)), env, sp)
+				b.EqUnder(rB, "stats.(Sample).Bounds/sorted-unweighted/"+itoa(i), b.pos(fn), fc, fc.RetVal(i), env, sp)
 			})
 		}
 	}
@@ -230,9 +230,18 @@ func propC09(a *Analysis, r *Registry) {
 			env := X.EnvFor(fn, "s")
 			fc := X.Under(fn, X.AssumeEq(env.MustParse("s.Sorted"), S.True()), X.AssumeCond(env.MustParse("s.Weights==nil"), false),
 				X.AssumeCond(env.MustParse("len(s.Xs)==0"), false))
+			// the scans may live in Bounds itself or in a helper it delegates to on this path
+			top := fc
+			for _, c := range top.BoundCallees(2) {
+				if len(c.Ctx.Loops()) == 2 {
+					fc = c
+					break
+				}
+			}
+			fn := fc.Fn
 			loops := fc.Ctx.Loops()
 			if len(loops) != 2 {
-				r.Fail("C-scan coverage", "stats.(Sample).Bounds/sorted-weighted", b.pos(fn), "expected a forward and a backward scan over the weights")
+				r.Fail("C-scan coverage", "stats.(Sample).Bounds/sorted-weighted", b.pos(top.Fn), "expected a forward and a backward scan over the weights")
 				return
 			}
 			dirs := map[string]bool{}
@@ -294,7 +303,7 @@ func propC09(a *Analysis, r *Registry) {
 					continue
 				}
 				cond := fc.Val(ifi.Cond)
-				e := X.EnvFor(fn, "s")
+				e := X.EnvFor(top.Fn, "s")
 				e.Set("k", k, nil)
 				n := "len(s.Weights)"
 				var first, last *RF // counter values of the first and last iteration, as substitutions for k
@@ -337,25 +346,32 @@ func propC09(a *Analysis, r *Registry) {
 		b.guard(rB, fname, func() {
 			fc := X.FCFor(fn)
 			n := 0
-			fc.Ctx.Instrs(func(in ssa.Instruction) {
-				st, ok := in.(*ssa.Store)
-				if !ok {
-					return
-				}
-				ia, ok := st.Addr.(*ssa.IndexAddr)
-				if !ok || fc.Ctx.LoopOf(st.Block()) == nil {
-					return
-				}
-				n++
-				env := X.EnvFor(fn, names...)
-				env.Set("i", fc.Val(ia.Index), nil)
-				env.Set("res", fc.Val(ia.X), nil)
-				b.Eq(rB, fname+"/element", a.W.InstrPos(st), fc.Val(st.Val), env, spec)
-				rv := fc.Ctx.Returns()
-				if len(rv) > 0 {
-					b.EqRF(rB, fname+"/stored-in-result", a.W.InstrPos(st), fc.Val(ia.X), fc.Val(rv[len(rv)-1].Results[0]), "the element is stored into the returned slice")
-				}
-			})
+			rv := fc.Ctx.Returns()
+			// the fill loop may live in the function or in a helper it hands the slice to
+			for _, sfc := range fc.BoundCallees(1) {
+				sfc := sfc
+				sfc.Ctx.Instrs(func(in ssa.Instruction) {
+					st, ok := in.(*ssa.Store)
+					if !ok {
+						return
+					}
+					ia, ok := st.Addr.(*ssa.IndexAddr)
+					if !ok || sfc.Ctx.LoopOf(st.Block()) == nil {
+						return
+					}
+					if sfc != fc && len(rv) > 0 && !sfc.Val(ia.X).Equal(fc.Val(rv[len(rv)-1].Results[0])) {
+						return // a helper's store into something other than the result
+					}
+					n++
+					env := X.EnvFor(fn, names...)
+					env.Set("i", sfc.Val(ia.Index), nil)
+					env.Set("res", sfc.Val(ia.X), nil)
+					b.Eq(rB, fname+"/element", a.W.InstrPos(st), sfc.Val(st.Val), env, spec)
+					if len(rv) > 0 {
+						b.EqRF(rB, fname+"/stored-in-result", a.W.InstrPos(st), sfc.Val(ia.X), fc.Val(rv[len(rv)-1].Results[0]), "the element is stored into the returned slice")
+					}
+				})
+			}
 			if n != 1 {
 				r.Fail(rB, fname+"/element", b.pos(fn), "expected one element store in a loop")
 			}
@@ -374,10 +390,8 @@ func propC09(a *Analysis, r *Registry) {
 			}
 			if ia, isI := st.Addr.(*ssa.IndexAddr); isI {
 				if z, isC := fc.Val(ia.Index).IsConst(); isC && z.Sign() == 0 && fc.Val(st.Val).Equal(env.MustParse("lo")) {
-					for _, f := range fc.Ctx.Facts(st.Block()) {
-						if f.Val && fc.Val(f.Cond).Equal(env.MustParse("num==1")) {
-							ok = true
-						}
+					if fc.HoldsAt(st.Block(), env.MustParse("num==1")) {
+						ok = true
 					}
 				}
 			}
